@@ -851,3 +851,92 @@ pub fn run_script<W: Write>(script: &Script, out: &mut W, annotate: bool) {
         let _ = catch_unwind(AssertUnwindSafe(move || drop(world)));
     }
 }
+
+// ---------------------------------------------------------------- several contexts (C19)
+
+fn split_ctx(line: &str) -> (char, String) {
+    let c = line.chars().next().unwrap();
+    let rest = line[1..].trim_start_matches(':').trim().to_string();
+    (c, rest)
+}
+
+/// lines "A:op" "B:op" interleaved on ONE thread; every context has its own world
+pub fn run_multi<W: Write>(script: &Script, out: &mut W) {
+    writeln!(out, "# {}", script.name).unwrap();
+    let mut worlds: BTreeMap<char, World> = BTreeMap::new();
+    let mut dead: Vec<char> = Vec::new();
+    for (idx, line) in script.lines.iter().enumerate() {
+        let (c, rest) = split_ctx(line);
+        if dead.contains(&c) {
+            continue;
+        }
+        let world = worlds.entry(c).or_insert_with(|| World::new(true));
+        let r = catch_unwind(AssertUnwindSafe(|| {
+            world.run_items(&[Item::Line(idx, rest.clone())]);
+        }));
+        let line_out = match r {
+            Ok(()) => world.out.pop().map(|x| x.1).unwrap_or_default(),
+            Err(p) => {
+                dead.push(c);
+                frp_panic_kind(&crate::gc::payload_msg(&p))
+            }
+        };
+        writeln!(out, "{}:{}", c, line_out).unwrap();
+    }
+    writeln!(out, "---").unwrap();
+    for (c, w) in worlds {
+        if dead.contains(&c) {
+            std::mem::forget(w);
+        }
+    }
+}
+
+/// the same scripts, one OS thread per context, all running concurrently
+pub fn run_threads<W: Write>(script: &Script, out: &mut W) {
+    writeln!(out, "# {}", script.name).unwrap();
+    let mut per: BTreeMap<char, Vec<String>> = BTreeMap::new();
+    for line in &script.lines {
+        let (c, rest) = split_ctx(line);
+        per.entry(c).or_default().push(rest);
+    }
+    let barrier = Arc::new(std::sync::Barrier::new(per.len()));
+    let mut handles = Vec::new();
+    for (c, lines) in per {
+        let barrier = barrier.clone();
+        handles.push(std::thread::spawn(move || {
+            let mut world = World::new(true);
+            let mut outs: Vec<String> = Vec::new();
+            barrier.wait();
+            let mut dead = false;
+            for (idx, l) in lines.iter().enumerate() {
+                if dead {
+                    break;
+                }
+                if idx % 3 == 0 {
+                    std::thread::yield_now();
+                }
+                let r = catch_unwind(AssertUnwindSafe(|| {
+                    world.run_items(&[Item::Line(idx, l.clone())]);
+                }));
+                match r {
+                    Ok(()) => outs.push(world.out.pop().map(|x| x.1).unwrap_or_default()),
+                    Err(p) => {
+                        outs.push(frp_panic_kind(&crate::gc::payload_msg(&p)));
+                        dead = true;
+                    }
+                }
+            }
+            if dead {
+                std::mem::forget(world);
+            }
+            (c, outs)
+        }));
+    }
+    for h in handles {
+        let (c, outs) = h.join().unwrap();
+        for o in outs {
+            writeln!(out, "{}:{}", c, o).unwrap();
+        }
+    }
+    writeln!(out, "---").unwrap();
+}
